@@ -174,8 +174,8 @@ def case_allocate(ctx, spec):
     if spec["integer"]:
         if q != math.floor(q):
             raise Violation("non-integral quantity %r in integer mode [%s]" % (q, cls), signature="non-integer:" + cls)
-        # maximal: one more unit would not fit
-        if cost(q + 1) <= amount - tol:
+        # maximal: one more unit would not fit (beyond 2**52 'one more unit' is not representable, any float is whole)
+        if abs(q) < 2.0**52 and cost(q + 1) <= amount - tol:
             qb = best_integer_q(cost, amount, unit)
             raise Violation("not the largest quantity: traded q=%r (cost %r) but q=%r fits amount=%r (cost %r) [%s]" % (q, c, qb, amount, cost(qb), cls), signature="not-maximal:" + cls)
     else:
@@ -269,7 +269,7 @@ def alloc_spec(draw):
     elif ak == "tiny":
         amount = sign * unit * draw(st.sampled_from([1e-9, 1e-6, 1e-3, 0.01]))
     else:
-        amount = sign * draw(st.sampled_from([1e8, 4.5e8, 1e9, 3.3e10]))
+        amount = sign * draw(st.sampled_from([1e8, 4.5e8, 1e9, 3.3e10, 1e14, 1e16, 3e17]))  # up to quantities beyond 2**53, where whole numbers are sparser than one unit
     return {"price": price, "mult": mult, "integer": integer, "spread": spread, "fee": fee, "pos0": pos0, "amount": amount}
 
 
